@@ -183,3 +183,64 @@ func sysPlan(r *hx.Rng) (plan [][]int, nTriples int) {
 	}
 	return
 }
+
+// Threshold stream: a validator misses block after block; after k misses a proposal changes
+// MischanceConfidence or MaxMischance (up or down, across the validator's current counters); it keeps
+// missing until it is inactivated (or 10 more blocks).
+type thrCase struct{ mc0, maxm0, which, val, k int }
+
+func thrCases() []thrCase {
+	var out []thrCase
+	for _, mc0 := range []int{0, 1, 3} {
+		for _, maxm0 := range []int{1, 2, 4} {
+			for which := 0; which < 2; which++ {
+				for _, val := range [][]int{{0, 1, 3, 5}, {1, 2, 4, 6}}[which] {
+					if (which == 0 && val == mc0) || (which == 1 && val == maxm0) {
+						continue
+					}
+					for _, k := range []int{1, 2, 4} {
+						out = append(out, thrCase{mc0, maxm0, which, val, k})
+					}
+				}
+			}
+		}
+	}
+	return out
+}
+
+func runThr(x *hist, g int, c thrCase) {
+	var o []int
+	for i := 0; i <= nCand; i++ {
+		if i != g {
+			o = append(o, i)
+		}
+	}
+	a, b := o[0], o[1]
+	x.setProp(0, uint64(c.mc0))
+	x.setProp(1, uint64(c.maxm0))
+	x.newBlock(5)
+	x.allSign()
+	x.claim(a, a, true)
+	x.claim(b, b, true)
+	x.end()
+	_ = b
+	inactive := func() bool { return x.prev.Vals[a].Status != stActive }
+	for i := 0; i < c.k && !inactive(); i++ {
+		x.newBlock(5)
+		x.allSign(int64(a))
+		if i == c.k-1 {
+			x.setProp(c.which, uint64(c.val)) // the proposal passes in the block of the k-th miss
+		}
+		x.end()
+	}
+	for i := 0; i < 10 && !x.dead; i++ {
+		x.newBlock(5)
+		if inactive() {
+			x.allSign()
+			x.end()
+			break
+		}
+		x.allSign(int64(a))
+		x.end()
+	}
+}
